@@ -50,7 +50,14 @@ def direct(r):
 def run_k(ctx, kres):
     n, ops = (40, 30) if ctx.quick else (600, 80)
     traces = [Trace("h%d" % i, gen.spine_history(ctx.seed * 100003 + i, ops)) for i in range(n)]
-    return k_suite(ctx, kres, "K11-histories", traces, in_projection, direct=direct)
+    v = k_suite(ctx, kres, "K11-histories", traces, in_projection, direct=direct)
+    # every short order of opens / closes / session-object creations / COPIES / logins / logouts / close-all: which handles are alive afterwards, what a fresh session finds
+    from .. import gen2
+    st, nst = gen2.c11_scope(ctx.seed, 4, sample=None if not ctx.quick else 4000)
+    kres["notes"].append("K11-smallscope: %d call orders, every handle value probed afterwards" % nst)
+    def proj2(m): return in_projection(m) or (m["op"] in ("getattr", "find", "findinit") and m["cat"] in ("rvclass", "rvcode", "nums"))
+    v += k_suite(ctx, kres, "K11-smallscope", [Trace("scope%d" % i, t) for i, t in enumerate(st)], proj2, direct=direct, shrink_budget=60, rank=lambda m: m["line"])
+    return v
 
 
 def judge(ctx, results):
